@@ -2338,6 +2338,131 @@ func isDirTest(cond ssa.Value) bool {
 	return strings.HasSuffix(n, ").IsDir")
 }
 
+// ---- HS7: the hasher does not touch the list it is given ---------------------------------------------------------------------------
+
+func ruleHS7(c *Ctx) *rule {
+	r := &rule{ID: "HS7", Engine: "E3", Floor: 1,
+		Statement: "a list that may share its backing array with a remembered glob expansion (it is, or is appended to, a value looked up in SpokFile.Globs) is never handed to a Hasher.Hash implementation that overwrites, sorts, compacts or appends in place to its argument",
+		Necessity: "the remembered expansion of a pattern is what the pattern denotes for every later task and for --clean: a hasher that sorts or compacts a list sharing its storage rewrites it (each half alone - a hasher that sorts a private list, a caller that shares a list with a read-only hasher - changes nothing and is accepted)"}
+	iface := c.hasherIface()
+	mutates := ""
+	for _, f := range c.ModFuncs {
+		if f.Name() != "Hash" || f.Signature.Recv() == nil || f.Synthetic != "" || len(f.Blocks) == 0 {
+			continue
+		}
+		if !types.Implements(f.Signature.Recv().Type(), iface) && !types.Implements(types.NewPointer(f.Signature.Recv().Type()), iface) {
+			continue
+		}
+		for _, p := range f.Params {
+			if _, isSlice := p.Type().Underlying().(*types.Slice); !isSlice {
+				continue
+			}
+			if why := c.sliceMutation(p, 2, map[ssa.Value]bool{}, "the list handed to the hasher"); why != "" {
+				mutates = why
+			}
+		}
+	}
+	// may the list at a call site share storage with an entry of SpokFile.Globs?
+	var sharesGlobs func(v ssa.Value, seen map[ssa.Value]bool) bool
+	sharesGlobs = func(v ssa.Value, seen map[ssa.Value]bool) bool {
+		if seen[v] {
+			return false
+		}
+		seen[v] = true
+		switch x := v.(type) {
+		case *ssa.Phi:
+			for _, e := range x.Edges {
+				if sharesGlobs(e, seen) {
+					return true
+				}
+			}
+		case *ssa.Lookup:
+			return isFieldLoad(x.X, "file.SpokFile.Globs")
+		case *ssa.Extract:
+			if lk, ok := x.Tuple.(*ssa.Lookup); ok && x.Index == 0 {
+				return isFieldLoad(lk.X, "file.SpokFile.Globs")
+			}
+		case *ssa.Slice:
+			return sharesGlobs(x.X, seen)
+		case *ssa.Call:
+			if bi, ok := x.Call.Value.(*ssa.Builtin); ok && bi.Name() == "append" && len(x.Call.Args) > 0 {
+				return sharesGlobs(x.Call.Args[0], seen) // the appended elements are copied, the base may be kept
+			}
+		}
+		return false
+	}
+	n := 0
+	for _, f := range c.ModFuncs {
+		for _, site := range callSites(f) {
+			call, ok := site.(*ssa.Call)
+			if !ok || !c.isHashCall(call) {
+				continue
+			}
+			args := call.Common().Args
+			if len(args) == 0 {
+				continue
+			}
+			n++
+			key := fmt.Sprintf("%s Hash#%d argument", fname(f), n)
+			shared := sharesGlobs(args[len(args)-1], map[ssa.Value]bool{})
+			switch {
+			case shared && mutates != "":
+				r.bad(key, c.ipos(call), "the list may share its storage with a remembered glob expansion, and "+mutates)
+			case shared:
+				r.ok(key, c.ipos(call), "the list may share storage with a remembered expansion; every hasher only reads it")
+			default:
+				r.ok(key, c.ipos(call), "the list is built in a slice of its own")
+			}
+		}
+	}
+	if n == 0 {
+		r.undecided("calls of Hasher.Hash", "-", "no call of Hasher.Hash found in the module")
+	}
+	return r
+}
+
+// ---- HS6: a digest is never a constant -----------------------------------------------------------------------------------------
+
+func ruleHS6(c *Ctx) *rule {
+	r := &rule{ID: "HS6", Engine: "E3", Floor: 1,
+		Statement: "every return of the hashing implementation that carries a nil error returns a string computed from the SHA-256 sum (an encoding of the state), never a constant; the only constants are returned together with a non-nil error",
+		Necessity: "the cache stands for 'no recorded success' with the empty string, and the run loop compares digests for equality: a digest that can be the empty string (or any other fixed text) for some file list makes that list equal to 'never succeeded' or to another list, and a task is reported skipped on it"}
+	t := c.hashTopology()
+	if t == nil || t.fn == nil {
+		r.undecided("hash implementation", "-", "the concurrent Hash implementation was not found")
+		return r
+	}
+	n := 0
+	for _, ret := range returnsOf(t.fn) {
+		if len(ret.Results) != 2 {
+			continue
+		}
+		ev := ret.Results[1]
+		if !isNilConst(ev) && !mayBeNil(ev, map[ssa.Value]bool{}) {
+			continue // an error return: the digest is not used
+		}
+		n++
+		key := fmt.Sprintf("%s digest return#%d", fname(t.fn), n)
+		bad := ""
+		for _, o := range origins(ret.Results[0]) {
+			if k, isC := o.(*ssa.Const); isC {
+				if isNilConst(ev) || mayBeNil(ev, map[ssa.Value]bool{}) {
+					bad = condText(k)
+				}
+			}
+		}
+		if bad != "" {
+			r.bad(key, c.ipos(ret), "the constant "+bad+" can be returned as a digest with a nil error")
+		} else {
+			r.ok(key, c.ipos(ret), "the digest is computed, not a constant")
+		}
+	}
+	if n == 0 {
+		r.undecided(fname(t.fn)+" digest returns", c.pos(t.fn.Pos()), "no return with a nil error found")
+	}
+	return r
+}
+
 // ---- HE1: the hasher's error stops the run ---------------------------------------------------------------------------------------
 
 func ruleHE1(c *Ctx) *rule {
